@@ -809,7 +809,7 @@ func (n *nodeContext) containsDefID(node, child defID) bool {
 		}
 	}
 
-	result := n.containsDefIDRec(node, child, child)
+	result := n.containsDefIDRec(node, child, child, 0)
 
 	if caching {
 		if c.containsDefIDCache == nil {
@@ -821,8 +821,16 @@ func (n *nodeContext) containsDefID(node, child defID) bool {
 	return result
 }
 
-func (n *nodeContext) containsDefIDRec(node, child, start defID) bool {
+func (n *nodeContext) containsDefIDRec(node, child, start defID, depth int) bool {
 	c := n.ctx
+
+	// Each level of recursion follows one replacement. Replacements can be
+	// cyclic (for instance with mutually embedding definitions), but any
+	// containment can be established by following each replacement at most
+	// once, so a deeper recursion can only be going in circles.
+	if depth > len(n.flatReplaceIDs) {
+		return false
+	}
 
 	// Walk up the containment hierarchy.
 	// Since p only decreases and flatReplaceIDs is sorted by 'to' (descending),
@@ -845,7 +853,7 @@ func (n *nodeContext) containsDefIDRec(node, child, start defID) bool {
 			// Process all entries with 'to' == p.
 			for cursor < len(n.flatReplaceIDs) && n.flatReplaceIDs[cursor].to == p {
 				from := n.flatReplaceIDs[cursor].from
-				if from != child && n.containsDefIDRec(node, from, start) {
+				if from != child && n.containsDefIDRec(node, from, start, depth+1) {
 					return true
 				}
 				cursor++
